@@ -348,6 +348,12 @@ def run_case(case, ctx):
                 of = np.empty(len(els), dtype=object)
                 of[:] = list(reversed(els))
                 _store_all_routes(Fxp, of, (len(els),), s, w, nf, r, o, routes=('constructor', 'call'))
+                # ... and holding narrow NumPy numbers next to python numbers (they must not be scaled in their own narrow type)
+                small = [v for v in (F(100), F(-100) if s else F(27), F(3)) if abs(v * F(2) ** nf) < 2 ** 62]
+                if small:
+                    on = np.empty(len(small) + 1, dtype=object)
+                    on[:] = [els[1]] + [np.int8(int(small[0]))] + [np.float32(float(v)) if j_ % 2 else np.uint8(abs(int(v))) for j_, v in enumerate(small[1:])]
+                    _store_all_routes(Fxp, on, (len(small) + 1,), s, w, nf, r, o, routes=('constructor', 'set_val'))
                 ctx.floor_hit(('object_array_mixed',))
         # extended-precision inputs (where longdouble is wider than a double): values of up to 63 significant bits next to codes and ties, as scalars,
         # arrays, lists and tuples of longdouble numbers - the configured rounding has to see all of their bits
